@@ -161,6 +161,8 @@ def parseResult (s : String) : Except String Result :=
   | [""] => pure .ok
   | ["requeue"] => pure .requeue
   | ["err"] => pure .err
+  -- controller-runtime recovers a panicking Reconcile and retries it with backoff: as good as an error (`ImplStep.panicked`)
+  | ["panic"] => pure .err
   | ["after", n] => match n.toNat? with
     | some k => pure (.after k)
     | none => throw s!"bad result {s}"
@@ -175,6 +177,12 @@ structure ImplStep where
   instances : Nat
   now : Nat
   rawCalls : List String
+  /-- `Reconcile` panicked -/
+  panicked : Bool := false
+  /-- finalizers other than Karpenter's on the API server's copy after the step, in list order -/
+  foreign : List String := []
+  /-- byte length of the `Launched` condition's message when its reason is `LaunchFailed` (0: another reason) -/
+  launchMsgBytes : Nat := 0
 
 /-- the deletion path (`finalize`) has call sites of its own; they are not part of the model's call alphabet -/
 def parseCallsLenient (cs : List String) : List Call :=
@@ -193,7 +201,14 @@ def parseImplStep (j : Json) : Except String ImplStep := do
     pure ({ ok := ← boolD c "ok" false, fin := ← boolD c "fin" false, present := ← boolD c "exists" false } : CreateObs))
   pure { obs := { isRec := isRec, fresh := false, view := view, calls := calls, result := ← parseResult ((← strO j "result").getD ""),
                   claim := claim, nodes := nodes, creates := creates, now := (← natO j "now").getD 0 },
-         strays := strays, finalizePath := finPath, instances := (← natO j "instances").getD 0, now := (← natO j "now").getD 0, rawCalls := rawCalls }
+         strays := strays, finalizePath := finPath, instances := (← natO j "instances").getD 0, now := (← natO j "now").getD 0, rawCalls := rawCalls,
+         panicked := ((← strO j "result").getD "") == "panic",
+         foreign := ← match fldOpt j "claim" with
+           | some v => do (← arrD v "ff").mapM asStr
+           | none => pure [],
+         launchMsgBytes := ← match fldOpt j "claim" with
+           | some v => do pure ((← natO v "Lm").getD 0)
+           | none => pure 0 }
 
 /-- input step -> model step; `impl` resolves what the (unmodelled) deletion path did -/
 def parseStep (j : Json) (impl : ImplStep) (w : World) (labelled pool : Bool) : Except String Step := do
@@ -267,6 +282,37 @@ def diffStep (idx : Nat) (w' : World) (o : Obs) (impl : ImplStep) : Option Strin
         else if w'.now != impl.now then some (pre ++ s!"clock model={w'.now} impl={impl.now}")
         else none
 
+/-- what the input says about the things the model does not carry: the finalizers of other controllers the NodeClaim
+    was created with, and the byte length of the provider's generic error text -/
+structure Extras where
+  foreign : List String := []
+  genericTextBytes : Nat := 20
+
+def parseExtras (c : Json) : Except String Extras := do
+  let ff ← (← arrD c "ff").mapM asStr
+  let n ← match fldOpt c "em" with
+    | some m => do pure ((← natF m "pre") + (← natF m "w") * (← natF m "n"))
+    | none => pure 20   -- "provider unavailable"
+  pure { foreign := ff, genericTextBytes := n }
+
+/-- the parts of the implementation's step the model has no field for:
+    * a reconcile never panics (controller-runtime would retry it forever: the pass is aborted before the delete /
+      liveness, nothing moves forward);
+    * the finalizers of other controllers are none of the lifecycle controller's business: a live NodeClaim keeps
+      exactly the ones it was created with, in order (their owners release them once it is terminating);
+    * the `LaunchFailed` message is `truncateMessage` of the provider's text -/
+def diffExtras (idx : Nat) (x : Extras) (impl : ImplStep) : Option String :=
+  let pre := s!"step {idx}: "
+  let c := impl.obs.claim
+  if impl.panicked then some (pre ++ s!"Reconcile panicked after the calls {impl.rawCalls}")
+  else if c.present && !c.deleting && impl.foreign != x.foreign then
+    some (pre ++ s!"finalizers of other controllers on the NodeClaim: expected={x.foreign} impl={impl.foreign}")
+  else if c.present && c.deleting && impl.foreign != [] then
+    some (pre ++ s!"harness: finalizers of other controllers not released on a terminating NodeClaim: {impl.foreign}")
+  else if c.present && c.conds.l.reason == .launchFailed && impl.launchMsgBytes != truncatedLen x.genericTextBytes then
+    some (pre ++ s!"LaunchFailed message: {impl.launchMsgBytes} bytes, truncateMessage of a text of {x.genericTextBytes} bytes has {truncatedLen x.genericTextBytes}")
+  else none
+
 /-- a "stray" input step as the Node it creates: no label, owner or finalizer of Karpenter's -/
 def parseStray (j : Json) : Except String (Option Node) := do
   if (← strF j "k") != "stray" then return none
@@ -279,7 +325,7 @@ def parseStray (j : Json) : Except String (Option Node) := do
     (with `fresh` filled in from the model's view bookkeeping, which only depends on the input).
     `strays`: the Nodes of the cluster that are not this NodeClaim's, as the input created them — the lifecycle
     controller must leave them exactly so. -/
-def replay (sp : Spec) (labelled : Bool) : Bool → World → Claim → List Node → List Json → List ImplStep → Nat → Option String → List StepObs →
+def replay (sp : Spec) (labelled : Bool) (x : Extras) : Bool → World → Claim → List Node → List Json → List ImplStep → Nat → Option String → List StepObs →
     Except String (Option String × List StepObs)
   | _, _, _, _, [], _, _, d, acc => pure (d, acc.reverse)
   | _, _, _, _, _ :: _, [], _, _, _ => throw "implementation recorded fewer steps than the input has"
@@ -294,13 +340,13 @@ def replay (sp : Spec) (labelled : Bool) : Bool → World → Claim → List Nod
     let so := { impl.obs with fresh := impl.obs.isRec && decide (impl.obs.view = prev) }
     let d' := match d with
       | some x => some x
-      | none => match diffStep idx w' o impl with
+      | none => match (if impl.panicked then none else diffStep idx w' o impl) with
         | some x => some x
         | none =>
           if impl.strays != strays' then
             some s!"step {idx}: a Node that does not carry the instance's provider id was touched: expected={repr strays'} impl={repr impl.strays}"
-          else none
-    replay sp labelled pool' w' impl.obs.claim strays' js impls (idx + 1) d' (so :: acc)
+          else diffExtras idx x impl
+    replay sp labelled x pool' w' impl.obs.claim strays' js impls (idx + 1) d' (so :: acc)
 
 def lifecycle (inp impl : Json) : Except String Resp := do
   let (sp, fin) ← parseSpec (← fld inp "claim")
@@ -314,7 +360,8 @@ def lifecycle (inp impl : Json) : Except String Resp := do
     | .ok impls =>
     let w0 := World.init fin
     let (labelled, pool) ← parsePool (← fld inp "claim")
-    let (d, obs) ← replay sp labelled pool w0 w0.claim [] steps impls 0 none []
+    let x ← parseExtras (← fld inp "claim")
+    let (d, obs) ← replay sp labelled x pool w0 w0.claim [] steps impls 0 none []
     let acc0 : Acc := { prev := w0.claim, finEver := fin }
     let viol := match Karp.Spec.LifecycleOrder.firstViolation sp acc0 obs 0 with
       | some v => some v
